@@ -233,6 +233,23 @@ def run(ctx):
           okp = True
       else:
         why = 'the index bound is `%s`, not min(len(module parts), len(selector components) - 1)' % be
+  # the same with takewhile:  sum(1 for _ in itertools.takewhile(lambda p: p[0] == p[1], zip(A, B[:-1])))   (stops at the first mismatch)
+  for tw in [x for x in ast.walk(isf.node) if isinstance(x, ast.Call) and u(x.func) in ('itertools.takewhile', 'takewhile') and len(x.args) == 2]:
+    pred, src = tw.args
+    eqpair = isinstance(pred, ast.Lambda) and len(pred.args.args) == 1 and isinstance(pred.body, ast.Compare) and len(pred.body.ops) == 1 \
+        and isinstance(pred.body.ops[0], ast.Eq) and {u(pred.body.left), u(pred.body.comparators[0])} == {'%s[0]' % pred.args.args[0].arg, '%s[1]' % pred.args.args[0].arg}
+    zipped = isinstance(src, ast.Call) and u(src.func) == 'zip' and len(src.args) == 2 and any(u(a).replace(' ', '') == 'attr_names[:-1]' for a in src.args)
+    # its length is what is counted
+    counted = False
+    for a in walk_local(isf.node):
+      if isinstance(a, ast.Assign) and isinstance(a.value, ast.Call) and u(a.value.func) in ('sum', 'len'):
+        inner = a.value.args[0] if a.value.args else None
+        names_in = {x.id for x in ast.walk(inner) if isinstance(x, ast.Name)} if inner is not None else set()
+        tw_names = {u(t.targets[0]) for t in walk_local(isf.node) if isinstance(t, ast.Assign) and t.value is tw}
+        if inner is not None and (any(x is tw for x in ast.walk(inner)) or (tw_names & names_in)):
+          counted = True
+    if eqpair and zipped and counted:
+      okp = True
   if not okp:
     sums = [x for x in walk_local(isf.node) if isinstance(x, ast.Call) and u(x.func) == 'sum']
     if sums:
@@ -267,5 +284,17 @@ def import_aliases(ctx, rule):
   g6, facts6 = std_facts(prog, un)
   rets6 = [n for n in g6.live_nodes() if n.kind == 'return' and n.ast.value is not None]
   taken = un.params[1] if len(un.params) > 1 else 'existing_names'
-  ok = bool(rets6) and all(('c', '%s in %s' % (u(n.ast.value), taken), False) in facts6[n.id] for n in rets6)
+  def free_name(n):
+    v = n.ast.value
+    if ('c', '%s in %s' % (u(v), taken), False) in facts6[n.id]:
+      return True
+    # next(c for c in CANDIDATES if c not in taken): the first candidate that is free
+    if isinstance(v, ast.Call) and u(v.func) == 'next' and len(v.args) == 1 and isinstance(v.args[0], ast.GeneratorExp) and len(v.args[0].generators) == 1:
+      ge = v.args[0]
+      gen = ge.generators[0]
+      return isinstance(gen.target, ast.Name) and u(ge.elt) == gen.target.id and \
+          any(isinstance(i, ast.Compare) and len(i.ops) == 1 and isinstance(i.ops[0], ast.NotIn) and u(i.left) == gen.target.id
+              and u(i.comparators[0]) == taken for i in gen.ifs) and len(gen.ifs) == 1
+    return False
+  ok = bool(rets6) and all(free_name(n) for n in rets6)
   ctx.check(ok, rule, construct(un), 'candidates are tried until one is not taken', '_uniquify_name no longer loops until the name is free', un.loc(), instance='loop')
